@@ -38,13 +38,14 @@ class Ob:
     """One proof obligation = one CBMC query family over a unit entry."""
     def __init__(self, oid, unit, entry, desc, unwind, core=True, tiers=('quick', 'thorough'), param=0, timeout=600,
                  mem_gb=8, functions=None, bounds='', assumptions=None, stubs=None, extra_flags=None, unwindset=None,
-                 backend=None, site=None, no_checks=False, unwind_fn=None):
+                 backend=None, site=None, no_checks=False, unwind_fn=None, ram_gb=None):
         self.oid = oid; self.unit = unit; self.entry = entry; self.desc = desc; self.unwind = unwind; self.core = core
         self.tiers = tiers; self.param = param; self.timeout = timeout; self.mem_gb = mem_gb
         self.functions = functions or []; self.bounds = bounds; self.assumptions = assumptions or []
         self.stubs = stubs or []; self.extra_flags = extra_flags or []; self.unwindset = unwindset
         self.backend = backend; self.site = site or ''; self.no_checks = no_checks
         self.unwind_fn = unwind_fn or {}    # {regex on function name or on loop id 'function.N': bound} -> unwindset for the matching loops (first match wins)
+        self.ram_gb = ram_gb                # estimated resident memory of the query (cbmc + SAT solver); scheduling only
         self.result = None
 
 def log(msg):
@@ -378,7 +379,27 @@ def run_property(pid, units, obs, tier, seed, level_text, trusted_base, extra_as
     try:
         with ThreadPoolExecutor(max_workers=jobs) as ex:
             list(ex.map(lambda u: lower_unit(u, scratch), used_units))
+        # memory-aware admission: the sum of the estimated resident sizes of the running queries stays below 70% of the machine's memory
+        # (16 four-man queries of 4-5 GB each exhausted a 62 GB machine and were killed: errors, not verdicts)
+        try:
+            with open('/proc/meminfo') as f: total_gb = int(re.search(r'MemTotal:\s+(\d+)', f.read()).group(1)) / 1048576.0
+        except Exception: total_gb = 32.0
+        budget = float(os.environ.get('VERIF_RAM_GB', 0)) or max(8.0, 0.7 * total_gb); ram = {'used': 0.0}; cv = threading.Condition()
+        def est(o):
+            if o.ram_gb: return float(o.ram_gb)
+            nm = int(o.unit.defines.get('NMEN', 0) or 0)
+            return 6.0 if nm >= 5 else 5.0 if nm == 4 else 2.5
         def one(o):
+            need = min(est(o), budget)
+            with cv:
+                while ram['used'] + need > budget: cv.wait()
+                ram['used'] += need
+            try:
+                return one_(o)
+            finally:
+                with cv:
+                    ram['used'] -= need; cv.notify_all()
+        def one_(o):
             r = check_ob(o, seed, known)
             log('  [%s] %s %s %.0fs %s' % (pid, o.oid, r['status'], r['wall_s'], (r.get('what') or r.get('detail') or '')[:200].replace('\n', ' | ')))
             return r
